@@ -24,15 +24,68 @@ static struct {
 	struct obj *o;
 	int nthreads, nops[RT_MAXT], ops[RT_MAXT][MAXOPS], dl[RT_MAXT][MAXOPS];
 	int freed_by;
+	int kind;                    /* 0 = random programs; 1 = directed: signal in a read section with a reader cv waiter and an nsync_wait_n waiter queued */
+	int k1_waitn_reader, k1_bcast, k1_go;
 	int final_reader[RT_MAXT];   /* this thread ends with a READ section in which it only marks itself done */
 } S;
-enum { CV_FREES = 0, CV_UNREF_SLEPT, CV_OPS, CV_WAIT_SLEPT, CV_LAST_WITH_QUEUE, CV_FREED_BY_MAIN };
-enum { O_W, O_R, O_TRY, O_RTRY, O_CVWAIT, O_MUWAIT, O_SIGNAL, O_CVWAIT_R, O_MUWAIT_R };
+enum { CV_FREES = 0, CV_UNREF_SLEPT, CV_OPS, CV_WAIT_SLEPT, CV_LAST_WITH_QUEUE, CV_FREED_BY_MAIN, CV_DIRECTED_FREES };
+enum { O_W, O_R, O_TRY, O_RTRY, O_CVWAIT, O_MUWAIT, O_SIGNAL, O_CVWAIT_R, O_MUWAIT_R, O_BCAST, O_WAITN, O_WAITN_R, O_SIGNAL_IN_R, O_NOPS };
+static void lk (void *m) { nsync_mu_lock ((nsync_mu *) m); }
+static void ulk (void *m) { nsync_mu_unlock ((nsync_mu *) m); }
+static void rlk (void *m) { nsync_mu_rlock ((nsync_mu *) m); }
+static void rulk (void *m) { nsync_mu_runlock ((nsync_mu *) m); }
 static int cond_v (const void *p) { return (*(const int *) p > 1000000); }   /* never true */
+
+/* directed round: T0 reader in nsync_cv_wait, T1 in nsync_wait_n on the same cv, T2 signals from inside a read section,
+   T3 takes the mutex only by try-lock and frees the object as soon as it finds everybody done */
+static void body_directed (int tid) {
+	struct obj *o = S.o;
+	int i, last, spins = 0;
+	switch (tid) {
+	case 0:
+		nsync_mu_rlock (&o->mu);
+		RT_OP ("nsync_cv_wait", nsync_cv_wait (&o->cv, &o->mu));
+		o->done[0] = 1;
+		rt_point ("t0-done");
+		RT_OP ("nsync_mu_runlock", nsync_mu_runlock (&o->mu));
+		break;
+	case 1: { struct nsync_waitable_s w; struct nsync_waitable_s *pw = &w; int rd = S.k1_waitn_reader;
+		w.v = &o->cv; w.funcs = &nsync_cv_waitable_funcs;
+		while (!rt_thread_in_wait (0)) { rt_yield (); if (!rt_mode_b () && (++spins & 7) == 0) rt_sleep_us (10); if (spins > 50000000) rt_fatal ("t0 never slept"); }
+		if (rd) nsync_mu_rlock (&o->mu); else nsync_mu_lock (&o->mu);
+		RT_OP ("nsync_wait_n", nsync_wait_n (&o->mu, rd ? &rlk : &lk, rd ? &rulk : &ulk, nsync_time_no_deadline, 1, &pw));
+		o->done[1] = 1;
+		if (rd) RT_OP ("nsync_mu_runlock", nsync_mu_runlock (&o->mu)); else RT_OP ("nsync_mu_unlock", nsync_mu_unlock (&o->mu));
+		break; }
+	case 2:
+		/* both waiters must be asleep ON THE CV (not merely blocked on the mutex): judged by the nsync function of their last step */
+		while (!(rt_thread_in_wait (0) && !strcmp (rt_thread_at (0), "nsync_cv_wait_with_deadline_generic") && rt_thread_in_wait (1) && !strcmp (rt_thread_at (1), "cv_ready_time"))) { rt_yield (); if (!rt_mode_b () && (++spins & 7) == 0) rt_sleep_us (10); if (spins > 50000000) rt_fatal ("waiters never slept"); }
+		nsync_mu_rlock (&o->mu);
+		if (S.k1_bcast) RT_OP ("nsync_cv_broadcast", nsync_cv_broadcast (&o->cv)); else { RT_OP ("nsync_cv_signal", nsync_cv_signal (&o->cv)); RT_OP ("nsync_cv_signal", nsync_cv_signal (&o->cv)); }
+		o->done[2] = 1;
+		__atomic_store_n (&S.k1_go, 1, __ATOMIC_RELEASE);
+		rt_point ("t2-done");
+		RT_OP ("nsync_mu_runlock", nsync_mu_runlock (&o->mu));
+		break;
+	default:
+		while (!__atomic_load_n (&S.k1_go, __ATOMIC_ACQUIRE)) { rt_yield (); if (!rt_mode_b () && (++spins & 7) == 0) rt_sleep_us (10); if (spins > 50000000) rt_fatal ("t2 never signalled"); }
+		for (;;) {
+			int r; RT_OP ("nsync_mu_trylock", r = nsync_mu_trylock (&o->mu));
+			if (r) {
+				last = 1; for (i = 0; i < 3; i++) if (!o->done[i]) last = 0;
+				if (last) { o->done[3] = 1; RT_OP ("nsync_mu_unlock", nsync_mu_unlock (&o->mu)); rt_cover (CV_FREES); rt_cover (CV_DIRECTED_FREES); S.freed_by = 3; free (o); rt_mark_nontrivial (); return; }
+				RT_OP ("nsync_mu_unlock", nsync_mu_unlock (&o->mu));
+			}
+			rt_yield (); if (!rt_mode_b () && (++spins & 7) == 0) rt_sleep_us (5);
+			if (spins > 50000000) rt_fatal ("directed round did not finish");
+		}
+	}
+}
 
 static void body (int tid) {
 	struct obj *o = S.o;
 	int i, last;
+	if (S.kind == 1) { body_directed (tid); return; }
 	for (i = 0; i < S.nops[tid]; i++) {
 		rt_cover (CV_OPS);
 		switch (S.ops[tid][i]) {
@@ -44,6 +97,14 @@ static void body (int tid) {
 		case O_CVWAIT_R: nsync_mu_rlock (&o->mu); RT_OP ("nsync_cv_wait_with_deadline", nsync_cv_wait_with_deadline (&o->cv, &o->mu, rt_deadline_in (S.dl[tid][i]), NULL)); nsync_mu_runlock (&o->mu); break;
 		case O_MUWAIT: nsync_mu_lock (&o->mu); RT_OP ("nsync_mu_wait_with_deadline", nsync_mu_wait_with_deadline (&o->mu, &cond_v, &o->v, NULL, rt_deadline_in (S.dl[tid][i]), NULL)); if (rt_op_sleeps ()) rt_cover (CV_WAIT_SLEPT); nsync_mu_unlock (&o->mu); break;
 		case O_MUWAIT_R: nsync_mu_rlock (&o->mu); RT_OP ("nsync_mu_wait_with_deadline", nsync_mu_wait_with_deadline (&o->mu, &cond_v, &o->v, NULL, rt_deadline_in (S.dl[tid][i]), NULL)); nsync_mu_runlock (&o->mu); break;
+		case O_BCAST: RT_OP ("nsync_cv_broadcast", nsync_cv_broadcast (&o->cv)); break;
+		case O_SIGNAL_IN_R: nsync_mu_rlock (&o->mu); if (rt_rand_n (2)) RT_OP ("nsync_cv_signal", nsync_cv_signal (&o->cv)); else RT_OP ("nsync_cv_broadcast", nsync_cv_broadcast (&o->cv)); rt_point ("r-after-signal"); nsync_mu_runlock (&o->mu); break;
+		case O_WAITN: case O_WAITN_R: { struct nsync_waitable_s w; struct nsync_waitable_s *pw = &w; int rd = (S.ops[tid][i] == O_WAITN_R);
+			w.v = &o->cv; w.funcs = &nsync_cv_waitable_funcs;
+			if (rd) nsync_mu_rlock (&o->mu); else nsync_mu_lock (&o->mu);
+			RT_OP ("nsync_wait_n", nsync_wait_n (&o->mu, rd ? &rlk : &lk, rd ? &rulk : &ulk, rt_deadline_in (S.dl[tid][i]), 1, &pw));
+			if (rd) nsync_mu_runlock (&o->mu); else nsync_mu_unlock (&o->mu);
+			break; }
 		default: RT_OP ("nsync_cv_signal", nsync_cv_signal (&o->cv)); break;
 		}
 		rt_point ("between-ops");
@@ -78,21 +139,24 @@ static int setup (uint64_t seed) {
 	memset (S.o, 0, sizeof (*S.o));
 	nsync_mu_init (&S.o->mu); nsync_cv_init (&S.o->cv);
 	S.nthreads = 2 + (int) rt_rand_n (3);
+	S.k1_go = 0; S.kind = (rt_rand_n (4) == 0); S.k1_waitn_reader = (int) rt_rand_n (2); S.k1_bcast = (int) rt_rand_n (2);
+	if (S.kind == 1) S.nthreads = 4;
 	S.o->refs = S.nthreads; S.freed_by = -1;
 	for (t = 0; t < RT_MAXT; t++) S.final_reader[t] = 0;
 	for (t = 1; t < S.nthreads; t++) S.final_reader[t] = (rt_rand_n (3) == 0);     /* thread 0 always ends as a writer */
 	for (t = 0; t < S.nthreads; t++) {
 		S.nops[t] = (int) rt_rand_n (MAXOPS + 1);
-		for (i = 0; i < S.nops[t]; i++) { S.ops[t][i] = (int) rt_rand_n (9); S.dl[t][i] = rt_mode_b () ? (int) rt_rand_n (3000) : (int) rt_rand_n (100000); rt_ev ((uint32_t) S.ops[t][i]); }
+		for (i = 0; i < S.nops[t]; i++) { S.ops[t][i] = (int) rt_rand_n (O_NOPS); S.dl[t][i] = rt_mode_b () ? (int) rt_rand_n (3000) : (int) rt_rand_n (100000); rt_ev ((uint32_t) S.ops[t][i]); }
 	}
 	return (S.nthreads);
 }
 static void check (void) { if (S.freed_by < 0) { rt_cover (CV_FREED_BY_MAIN); free (S.o); } }
 static void describe (FILE *f) {
-	static const char *const on[] = { "W", "R", "try", "rtry", "cvwait", "muwait", "signal", "cvwait(r)", "muwait(r)" }; int t, i;
+	static const char *const on[] = { "W", "R", "try", "rtry", "cvwait", "muwait", "signal", "cvwait(r)", "muwait(r)", "bcast", "waitn", "waitn(r)", "signal-in-rsec" }; int t, i;
+	if (S.kind == 1) { fprintf (f, "{\"directed\":\"T0 reader cv_wait, T1 wait_n(%s), T2 %s inside a read section, T3 try-lock + free\",\"freed_by\":%d}", S.k1_waitn_reader ? "reader" : "writer", S.k1_bcast ? "broadcast" : "2 signals", S.freed_by); return; }
 	fprintf (f, "{\"threads\":[");
 	for (t = 0; t < S.nthreads; t++) { fprintf (f, "%s\"", t ? "," : ""); for (i = 0; i < S.nops[t]; i++) fprintf (f, "%s ", on[S.ops[t][i]]); fprintf (f, "unref\""); }
 	fprintf (f, "],\"freed_by\":%d}", S.freed_by);
 }
-static void pinit (void) { rt_cover_name (CV_FREES, "objects_freed_by_last_user"); rt_cover_name (CV_UNREF_SLEPT, "final_acquisitions_that_slept"); rt_cover_name (CV_OPS, "operations"); rt_cover_name (CV_WAIT_SLEPT, "waits_that_slept"); rt_cover_name (CV_LAST_WITH_QUEUE, "last_unref_with_waiting_bit_set"); rt_cover_name (CV_FREED_BY_MAIN, "rounds_where_the_last_to_finish_was_a_reader"); }
+static void pinit (void) { rt_cover_name (CV_FREES, "objects_freed_by_last_user"); rt_cover_name (CV_UNREF_SLEPT, "final_acquisitions_that_slept"); rt_cover_name (CV_OPS, "operations"); rt_cover_name (CV_WAIT_SLEPT, "waits_that_slept"); rt_cover_name (CV_LAST_WITH_QUEUE, "last_unref_with_waiting_bit_set"); rt_cover_name (CV_FREED_BY_MAIN, "rounds_where_the_last_to_finish_was_a_reader"); rt_cover_name (CV_DIRECTED_FREES, "directed_rounds_freed_by_trylocker"); }
 rt_scenario rt_scen = { "refcount", "C13", 4, &pinit, &setup, &body, &check, NULL, &describe, NULL, NULL, NULL };
